@@ -69,44 +69,67 @@ Print Assumptions C19_values_stream_inj_strict.
 
 (* -- the hand-written composite payloads -- *)
 
-(* config.Public.WriteTo (point, point, minimal-width modulus, 3 x 256 bytes): injective with NO width assumption *)
-Theorem C19_public_data_inj : forall p q,
-  wf_public p = true -> wf_public q = true -> public_data p = public_data q -> p = q.
+(* pedersen.Parameters.WriteTo: three 256-byte fields, or an error when a value does not fit: injective with no
+   range clause *)
+Theorem C19_pedersen_data_inj : forall n s t n' s' t' d,
+  pedersen_data_opt n s t = Some d -> pedersen_data_opt n' s' t' = Some d -> n = n' /\ s = s' /\ t = t'.
+Proof. exact pedersen_data_opt_inj. Qed.
+Print Assumptions C19_pedersen_data_inj.
+
+(* config.Public.WriteTo (point, point, 8-byte length + modulus, Pedersen): injective, and prefix-free *)
+Theorem C19_public_data_inj : forall p q d,
+  wf_public p = true -> wf_public q = true -> public_data p = Some d -> public_data q = Some d -> p = q.
 Proof. exact public_data_inj. Qed.
 Print Assumptions C19_public_data_inj.
 
-(* config.Config.WriteTo (threshold, IDSlice, RID, each Public -- raw, in ONE item): injective when all Paillier moduli
-   of both configs have one common byte length w (ValidateN: w = 256); the RID's length is free *)
-Theorem C19_config_data_inj : forall w c1 c2 d,
-  wf_config_w w c1 = true -> wf_config_w w c2 = true ->
+(* config.Config.WriteTo (threshold, IDSlice, 8-byte length + RID, each Public -- in ONE item): injective with NO
+   hypothesis on the sizes of the Paillier moduli, of the Pedersen values or of the RID.  wf_config = threshold in
+   uint32 range, keys strictly sorted (canonical form of the map), point coordinates in range, lengths below 2^64 *)
+Theorem C19_config_data_inj : forall c1 c2 d,
+  wf_config c1 = true -> wf_config c2 = true ->
   config_data c1 = Some d -> config_data c2 = Some d -> c1 = c2.
 Proof. exact config_data_inj. Qed.
 Print Assumptions C19_config_data_inj.
 
-(* the width hypothesis cannot be dropped: two different configs (same threshold, parties, 32-byte RID; all other
-   ranges respected) whose WriteTo outputs are the same byte string *)
-Theorem C19_config_inj_without_widths_refuted :
+(* regression: the encoders before the repairs (fix: length prefixes in config.go; fix: ErrTooLarge in pedersen.go) *)
+
+(* pre-fix Config.WriteTo was injective only for one common byte length w of all Paillier moduli ... *)
+Theorem C19_config_data_v0_inj : forall w c1 c2 d,
+  wf_config_w w c1 = true -> wf_config_w w c2 = true ->
+  config_data_v0 c1 = Some d -> config_data_v0 c2 = Some d -> c1 = c2.
+Proof. exact config_data_v0_inj. Qed.
+(* ... and collided otherwise: two different configs (same threshold, parties, 32-byte RID; all ranges respected) *)
+Theorem C19_config_v0_refuted :
   exists c1 c2 : cmp_config,
     c1 <> c2 /\
-    wf_config_loose c1 = true /\ wf_config_loose c2 = true /\
-    item_ok (HCmpConfig (Some c1)) = true /\ item_ok (HCmpConfig (Some c2)) = true /\
+    wf_config c1 = true /\ wf_config c2 = true /\ peds_in_range c1 = true /\ peds_in_range c2 = true /\
+    item_ok_v0 (HCmpConfig (Some c1)) = true /\
     cc_threshold c1 = cc_threshold c2 /\ cc_rid c1 = cc_rid c2 /\ map fst (cc_public c1) = map fst (cc_public c2) /\
-    enc_hval (HCmpConfig (Some c1)) = enc_hval (HCmpConfig (Some c2)) /\ enc_hval (HCmpConfig (Some c1)) <> None.
-Proof. exact config_inj_without_widths_refuted. Qed.
-Print Assumptions C19_config_inj_without_widths_refuted.
-Theorem C19_config_inj_without_widths_one_party_refuted :
+    enc_hval_v0 (HCmpConfig (Some c1)) = enc_hval_v0 (HCmpConfig (Some c2)).
+Proof. exact config_v0_refuted. Qed.
+Print Assumptions C19_config_v0_refuted.
+(* the repaired encoder separates that pair *)
+Theorem C19_config_witness_repaired :
+  wf_hval (HCmpConfig (Some wit_config_a)) = true /\ wf_hval (HCmpConfig (Some wit_config_b)) = true /\
+  enc_hval (HCmpConfig (Some wit_config_a)) <> None /\
+  enc_hval (HCmpConfig (Some wit_config_a)) <> enc_hval (HCmpConfig (Some wit_config_b)).
+Proof. exact config_witness_repaired. Qed.
+Theorem C19_config_v0_one_party_refuted :
   exists c1 c2 : cmp_config,
-    c1 <> c2 /\ wf_config_loose c1 = true /\ wf_config_loose c2 = true /\
+    c1 <> c2 /\ wf_config c1 = true /\ wf_config c2 = true /\ peds_in_range c1 = true /\ peds_in_range c2 = true /\
     length (cc_public c1) = 1%nat /\ length (cc_public c2) = 1%nat /\
-    enc_hval (HCmpConfig (Some c1)) = enc_hval (HCmpConfig (Some c2)) /\ enc_hval (HCmpConfig (Some c1)) <> None.
-Proof. exact config_inj_without_widths_one_party_refuted. Qed.
+    item_ok_v0 (HCmpConfig (Some c1)) = true /\
+    enc_hval_v0 (HCmpConfig (Some c1)) = enc_hval_v0 (HCmpConfig (Some c2)) /\
+    enc_hval (HCmpConfig (Some c1)) <> enc_hval (HCmpConfig (Some c2)).
+Proof. exact config_v0_one_party_refuted. Qed.
 
-(* the range clauses of wf_hval cannot be dropped either: FillBytes into a fixed-width buffer truncates, so a Pedersen
-   modulus n and n + 2^2048 are written identically (ranges are what pedersen.ValidateParameters / ValidateN enforce) *)
-Theorem C19_fixed_width_truncation_refuted :
-  exists v1 v2, v1 <> v2 /\ same_kind v1 v2 /\ item_ok v1 = true /\ item_ok v2 = true /\
-                enc_hval v1 = enc_hval v2 /\ enc_hval v1 <> None.
-Proof. exact fixed_width_truncation_refuted. Qed.
+(* pre-fix Parameters.WriteTo truncated: N and N + 2^2048 were written identically; now the second is refused *)
+Theorem C19_pedersen_v0_truncation_refuted :
+  exists v1 v2, v1 <> v2 /\ same_kind v1 v2 /\ item_ok_v0 v1 = true /\
+                enc_hval_v0 v1 = enc_hval_v0 v2 /\
+                enc_hval v1 <> None /\ enc_hval v2 = None.
+Proof. exact pedersen_v0_truncation_refuted. Qed.
+Print Assumptions C19_pedersen_v0_truncation_refuted.
 
 (* polynomial.Exponent.MarshalBinary (uint32 count + CBOR map) *)
 Theorem C19_exponent_data_inj : forall c1 co1 c2 co2,
